@@ -28,6 +28,7 @@ def audit(verbose=True):
     for rel in core.coq_project_files():
         text = open(os.path.join(core.COQ, rel)).read()
         text_nc = re.sub(r"\(\*.*?\*\)", lambda m: re.sub(r"[^\n]", " ", m.group(0)), text, flags=re.S)
+        text_nc = re.sub(r'"(?:[^"]|"")*"', lambda m: re.sub(r"[^\n]", " ", m.group(0)), text_nc)
         depth = 0
         for ln, line in enumerate(text_nc.split("\n"), 1):
             if re.match(r"\s*Section\b", line):
